@@ -23,7 +23,7 @@ import sys
 sys.path.insert(0, os.path.dirname(os.path.abspath(__file__)))
 import extract  # noqa: E402
 
-SKIP_WORDS = {"Seq", "Map", "Set", "int", "nat", "forall", "exists", "PlayerState", "Bitboard", "choose", "decreases", "uninterp"}
+SKIP_WORDS = {"Seq", "Map", "Set", "nat", "PlayerState", "Bitboard", "choose", "decreases", "uninterp", "spec_fn"}
 
 
 class TranslateError(Exception):
@@ -95,6 +95,8 @@ def split_top(src, lo, hi, seq):
         if t.kind == "p" and src.text[t.s] in "([{":
             k = src.match[k] + 1
             continue
+        if t.kind == "id" and src.text[t.s:t.e] in ("forall", "exists"):
+            break   # a quantifier body extends to the end of the enclosing range
         if is_seq(src, k, seq) and k + n <= hi:
             # make sure `==>` is not part of `<==>` when looking for `==>` and vice versa
             if seq == "==>" and k > lo and src.is_p(k - 1, "<") and src.toks[k - 1].e == src.toks[k].s:
@@ -115,6 +117,31 @@ def translate_expr(src, lo, hi):
         hi -= 1
     if lo >= hi:
         return ""
+    # bounded quantifiers: forall|x: u32| x < 64 && A ==> B  /  exists|x: u32| x < 64 && A   -> loops over 0..64
+    if src.toks[lo].kind == "id" and src.tt(lo) in ("forall", "exists"):
+        q = src.tt(lo)
+        k = src.sig(lo + 1, hi)
+        if not src.is_p(k, "|"):
+            raise TranslateError("quantifier syntax")
+        e = k + 1
+        while e < hi and not src.is_p(e, "|"):
+            e += 1
+        params = src.text[src.toks[k].e:src.toks[e].s]
+        names = []
+        for prm in params.split(","):
+            nm, ty = [x.strip() for x in prm.split(":")]
+            if ty != "u32":
+                raise TranslateError("only u32-bounded quantifiers are translated")
+            names.append(nm)
+        body_txt = src.text[src.toks[e].e:src.toks[hi - 1].e]
+        for nm in names:
+            if not re.search(r"\b" + nm + r"\s*<\s*64\b", body_txt):
+                raise TranslateError(f"quantified variable {nm} has no `< 64` guard")
+        body = translate_expr(src, e + 1, hi)
+        out = body
+        for nm in reversed(names):
+            out = f"(0u32..64).{'all' if q == 'forall' else 'any'}(|{nm}| {out})"
+        return out
     # bullets
     for bullet, op in (("&&&", "&&"), ("|||", "||")):
         if is_seq(src, lo, bullet):
@@ -146,9 +173,18 @@ def translate_expr(src, lo, hi):
         if t.kind in ("lc", "bc"):
             k += 1
             continue
+        if t.kind == "id" and src.tt(k) in ("forall", "exists") and k > lo:
+            out.append(" " + translate_expr(src, k, hi))
+            break
         if t.kind == "id" and src.tt(k) in SKIP_WORDS:
             raise TranslateError("unsupported word " + src.tt(k))
-        out.append(src.text[t.s:t.e])
+        if src.is_p(k, "#") and k + 1 < hi and src.is_p(k + 1, "["):
+            k = src.match[k + 1] + 1      # #[trigger] and friends
+            continue
+        if t.kind == "id" and src.tt(k) == "int":
+            out.append("i64")
+        else:
+            out.append(src.text[t.s:t.e])
         k += 1
     return "".join(out)
 
@@ -173,6 +209,7 @@ def translate_files(paths, skip_fns=()):
                 skipped.append(it.name)
                 continue
             sig = src.text[src.toks[it.kw].s:src.toks[it.body_open].s]
+            sig = re.sub(r"\bint\b", "i64", sig)
             if any(re.search(r"\b" + w + r"\b", sig) for w in SKIP_WORDS) or re.search(r"\b(recommends|decreases)\b", sig):
                 skipped.append(it.name)
                 continue
